@@ -17,6 +17,7 @@ from rv import util
 from rv.model import minifloat as mf
 from rv.util import CLASSES, call
 
+AMBIENT = ['bytealigned']      # an option this property does not depend on: a quarter of the cases run with it switched on
 PROP = 'C11'
 SHARDS = {'quick': 4, 'thorough': 16}
 RULE = ("exhaustive: every code of every format (bfloat/bfloatle: all 65536) decoded through property, read, "
